@@ -265,6 +265,7 @@ func c07Gen(r *rand.Rand, n int, tier string) []string {
 		if r.Intn(3) == 0 {
 			ops = append(ops, "w")
 		}
+		toggled := map[string]bool{}
 		var vdevs []string
 		add("c1", pick(r, containers), "vdev")
 		vdevs = append(vdevs, "c1")
@@ -280,6 +281,15 @@ func c07Gen(r *rand.Rand, n int, tier string) []string {
 				e := pick(r, edges)
 				if settled && e.typ == "vchild" {
 					ops = append(ops, "w")
+				}
+				if e.typ == "vdev" {
+					// a placement deleted and at once undeleted keeps the client's subscription callback busy for up
+					// to 5 s (it waits to see the deletion in the store) before the client is restarted — longer than
+					// a case waits: histories toggle a placement at most once
+					if toggled[e.up+"/"+e.down] {
+						continue
+					}
+					toggled[e.up+"/"+e.down] = true
 				}
 				ops = append(ops, "ep:"+hxs(e.down)+":"+hxs(e.up)+":"+tomb(pick(r, []int{1, 1, 0})))
 			case k < 12 && len(vdevs) > 0: // configuration update from another party, to a settled manager
